@@ -174,33 +174,82 @@ def smtpEhlo (v : HeloV) (s : Sess) : FuncRes :=
   | .syntax => { replies := [], rc := .einval, s := s }
   | .ok => { replies := [250], rc := .ok, s := { freedata s with esmtp := true } }
 
+/-- submission mode: `is_authenticated()` is asked before anything else in MAIL FROM -/
+def submissionGate (env : Env) (s : Sess) : Option FuncRes × Sess :=
+  if env.submission then
+    match isAuthenticated env s with
+    | (none, s') => (some { replies := [421], rc := .edone, s := s' }, s')
+    | (some false, s') => (some { replies := [550], rc := .edone, s := s' }, s')
+    | (some true, s') => (none, s')
+  else (none, s)
+
+def smtpFromInner (env : Env) (v : MailV) (s : Sess) : FuncRes :=
+  match v with
+  | .noBracket => { replies := [], rc := .einval, s := s }
+  | .badAddr => { replies := [501], rc := .ebogus, s := s }
+  | .noSuchUser => { replies := [550], rc := .ebogus, s := s }
+  | .paramSyntax => { replies := [], rc := .einval, s := s }
+  | .paramUnknown => { replies := [], rc := if s.esmtp then .enoexec else .einval, s := s }
+  | .ok addr size params linelen validlen =>
+    if params && !s.esmtp then { replies := [], rc := .einval, s := s }
+    else if linelen > validlen then { replies := [], rc := .e2big, s := s }
+    else if env.databytes ≠ 0 ∧ env.databytes < size then { replies := [452], rc := .edone, s := s }
+    else { replies := [250], rc := .ok, s := { s with mailfrom := addr, goodrcpt := 0 } }
+
 def smtpFrom (env : Env) (v : MailV) (s0 : Sess) : FuncRes :=
   let s := { s0 with mailfrom := [] }
   match v with
   | .noBracket => { replies := [], rc := .einval, s := s }
   | _ =>
-    -- submission mode requires authentication before anything else
-    let (gate, s) :=
-      if env.submission then
-        match isAuthenticated env s with
-        | (none, s') => (some ({ replies := [421], rc := .edone, s := s' } : FuncRes), s')
-        | (some false, s') => (some ({ replies := [550], rc := .edone, s := s' } : FuncRes), s')
-        | (some true, s') => (none, s')
-      else (none, s)
-    match gate with
-    | some r => r
-    | none =>
-      match v with
-      | .noBracket => { replies := [], rc := .einval, s := s }
-      | .badAddr => { replies := [501], rc := .ebogus, s := s }
-      | .noSuchUser => { replies := [550], rc := .ebogus, s := s }
-      | .paramSyntax => { replies := [], rc := .einval, s := s }
-      | .paramUnknown => { replies := [], rc := if s.esmtp then .enoexec else .einval, s := s }
-      | .ok addr size params linelen validlen =>
-        if params && !s.esmtp then { replies := [], rc := .einval, s := s }
-        else if linelen > validlen then { replies := [], rc := .e2big, s := s }
-        else if env.databytes ≠ 0 ∧ env.databytes < size then { replies := [452], rc := .edone, s := s }
-        else { replies := [250], rc := .ok, s := { s with mailfrom := addr, goodrcpt := 0 } }
+    match submissionGate env s with
+    | (some r, _) => r
+    | (none, s') => smtpFromInner env v s'
+
+/-- addrparse() and the relay decision of smtp_rcpt(): either an early result or the address that
+goes on to the recipient list (with what is left of the line and the filter outcome) -/
+def rcptEarly (env : Env) (v : RcptV) (s : Sess) : Sum FuncRes (List Byte × Bool × FilterV × Sess) :=
+  match v with
+  | .noBracket => .inl { replies := [], rc := .einval, s := s }
+  | .badAddr => .inl { replies := [501], rc := .ebogus, s := s }
+  | .localUser addr exist more f =>
+    if exist then .inr (addr, more, f, s) else .inl { replies := [550], rc := .ebogus, s := s }
+  | .remote addr mx more f =>
+    match isAuthenticated env s with
+    | (none, s') => .inl { replies := [421], rc := .edone, s := s' }
+    | (some false, s') => .inl { replies := [551], rc := .ebogus, s := s' }
+    | (some true, s') =>
+      match mx with
+      | .localError => .inl { replies := [], rc := .other 451, s := s' }
+      | .tempNone => .inl { replies := [451], rc := .edone, s := s' }
+      | .nullMx => .inl { replies := [556], rc := .edone, s := s' }
+      | .found => .inr (addr, more, f, s')
+
+/-- `l = TAILQ_FIRST(&head); l->ok = 0` -/
+def revokeFirst : List Recip → List Recip
+  | [] => []
+  | r :: rest => { r with ok := false } :: rest
+
+/-- state after the second recipient of a bounce was refused: it is on the list (not ok), the
+first one is revoked, `goodrcpt = 0` -/
+def bounceRefused (s : Sess) (addr : List Byte) : Sess :=
+  { s with rcpts := revokeFirst (s.rcpts ++ [{ addr := addr, ok := false }]),
+           rcptcount := s.rcptcount + 1, goodrcpt := 0 }
+
+/-- the recipient is appended to the list (`ok` only if the filters accepted it) -/
+def withRcpt (s : Sess) (addr : List Byte) (ok : Bool) : Sess :=
+  { s with rcpts := s.rcpts ++ [{ addr := addr, ok := ok }], rcptcount := s.rcptcount + 1,
+           goodrcpt := if ok then s.goodrcpt + 1 else s.goodrcpt }
+
+/-- the rest of smtp_rcpt(): the address is put on the list, bounce rule, filter outcome -/
+def rcptAdd (addr : List Byte) (more : Bool) (f : FilterV) (s : Sess) : FuncRes :=
+  if more then { replies := [], rc := .einval, s := s }
+  else if s.rcptcount > 0 ∧ s.mailfrom.isEmpty then
+    -- second recipient of a bounce: refuse it and revoke the first
+    { replies := [550], rc := .ebogus, s := bounceRefused s addr }
+  else
+    match f with
+    | .accept => { replies := [250], rc := .ok, s := withRcpt s addr true }
+    | .deny code => { replies := [code], rc := .ok, s := withRcpt s addr false }
 
 def smtpRcpt (env : Env) (v : RcptV) (s : Sess) : FuncRes :=
   match v with
@@ -208,41 +257,18 @@ def smtpRcpt (env : Env) (v : RcptV) (s : Sess) : FuncRes :=
   | _ =>
     if s.rcptcount ≥ Gen.maxRcpt then { replies := [452], rc := .ok, s := s }
     else
-      -- addrparse + relay decision: either an early result or the accepted address
-      let early : Sum FuncRes (List Byte × Bool × FilterV × Sess) :=
-        match v with
-        | .noBracket => .inl { replies := [], rc := .einval, s := s }
-        | .badAddr => .inl { replies := [501], rc := .ebogus, s := s }
-        | .localUser addr exist more f =>
-          if exist then .inr (addr, more, f, s) else .inl { replies := [550], rc := .ebogus, s := s }
-        | .remote addr mx more f =>
-          match isAuthenticated env s with
-          | (none, s') => .inl { replies := [421], rc := .edone, s := s' }
-          | (some false, s') => .inl { replies := [551], rc := .ebogus, s := s' }
-          | (some true, s') =>
-            match mx with
-            | .localError => .inl { replies := [], rc := .other 451, s := s' }
-            | .tempNone => .inl { replies := [451], rc := .edone, s := s' }
-            | .nullMx => .inl { replies := [556], rc := .edone, s := s' }
-            | .found => .inr (addr, more, f, s')
-      match early with
+      match rcptEarly env v s with
       | .inl r => r
-      | .inr (addr, more, f, s) =>
-        if more then { replies := [], rc := .einval, s := s }
-        else
-          let s1 := { s with rcpts := s.rcpts ++ [{ addr := addr, ok := false }], rcptcount := s.rcptcount + 1 }
-          if s.rcptcount > 0 ∧ s.mailfrom.isEmpty then
-            -- second recipient of a bounce: refuse it and revoke the first
-            let rc' := match s1.rcpts with
-              | [] => []
-              | r :: rest => { r with ok := false } :: rest
-            { replies := [550], rc := .ebogus, s := { s1 with rcpts := rc', goodrcpt := 0 } }
-          else
-            match f with
-            | .accept =>
-              { replies := [250], rc := .ok,
-                s := { s1 with rcpts := s.rcpts ++ [{ addr := addr, ok := true }], goodrcpt := s.goodrcpt + 1 } }
-            | .deny code => { replies := [code], rc := .ok, s := s1 }
+      | .inr x => rcptAdd x.1 x.2.1 x.2.2.1 x.2.2.2
+
+/-- what queue_envelope() writes: the sender and the recipients marked ok, in list order -/
+def mkHandoff (s : Sess) : Handoff :=
+  { sender := s.mailfrom, rcpts := (s.rcpts.filter (·.ok)).map (·.addr) }
+
+/-- DATA failed after 354: the reply is written by smtp_data (EDONE/EBOGUS) or by smtploop
+according to `rc`; the transaction is gone -/
+def refusedRes (code : Nat) (rc : Rc) (s : Sess) : FuncRes :=
+  { replies := if rc = .edone ∨ rc = .ebogus then [354, code] else [354], rc := rc, s := freedata s }
 
 def smtpData (v : DataV) (s : Sess) : FuncRes :=
   if s.goodrcpt = 0 then { replies := [554], rc := .edone, s := s }
@@ -250,10 +276,8 @@ def smtpData (v : DataV) (s : Sess) : FuncRes :=
     | .queueInitFailed => { replies := [451], rc := .edone, s := s }
     | .accepted =>
       { replies := [354, 250], rc := .ok, s := freedata s, stateOverride := some (afterHelo s),
-        handoff := some { sender := s.mailfrom, rcpts := (s.rcpts.filter (·.ok)).map (·.addr) } }
-    | .refused code rc =>
-      -- the reply is written by smtp_data (EDONE/EBOGUS) or by smtploop according to rc
-      { replies := if rc = .edone ∨ rc = .ebogus then [354, code] else [354], rc := rc, s := freedata s }
+        handoff := some (mkHandoff s) }
+    | .refused code rc => refusedRes code rc s
 
 def smtpRset (s : Sess) : FuncRes :=
   if s.comstate ≥ 0x008 then
@@ -338,8 +362,22 @@ structure Out where
   deriving Repr
 
 def errOut (rc : Rc) (s : Sess) : Out × Sess :=
-  let (e, s') := handleError rc s
-  ({ replies := e }, s')
+  ({ replies := (handleError rc s).1 }, (handleError rc s).2)
+
+/-- the state after a successful command: the table row's (or the function's) state, `1 << i`
+for 0, unchanged for negative values -/
+def newState (rowState : Int) (i : Nat) (r : FuncRes) : Nat :=
+  let st : Int := match r.stateOverride with
+    | some o => o
+    | none => rowState
+  if st > 0 then st.toNat else if st = 0 then 1 <<< i else r.s.comstate
+
+/-- what smtploop does with the result of the command function: on success the state of the table
+row (or the one the function put there) becomes the new state; otherwise the error is handled -/
+def finishStep (rowState : Int) (i : Nat) (r : FuncRes) : Out × Sess :=
+  if r.rc = .ok then
+    ({ replies := r.replies, handoff := r.handoff }, { r.s with comstate := newState rowState i r, badcmds := 0 })
+  else ({ replies := r.replies ++ (handleError r.rc r.s).1 }, (handleError r.rc r.s).2)
 
 /-- one iteration pair of smtploop: read one line (or fail), dispatch, and handle the error if any. -/
 def step (env : Env) (s : Sess) (inp : Input) : Out × Sess :=
@@ -355,16 +393,7 @@ def step (env : Env) (s : Sess) (inp : Input) : Out × Sess :=
         else if row.flags &&& 1 = 0 ∧ l.length > row.name.length then errOut .einval s
         else if row.flags &&& 4 ≠ 0 ∧ l[row.name.length]? ≠ some SP then errOut .einval s
         else
-          let r := runFunc env v row.func s l
-          if r.rc = .ok then
-            let st : Int := match r.stateOverride with
-              | some o => o
-              | none => row.state
-            let cs := if st > 0 then st.toNat else if st = 0 then 1 <<< i else r.s.comstate
-            ({ replies := r.replies, handoff := r.handoff }, { r.s with comstate := cs, badcmds := 0 })
-          else
-            let (e, s') := handleError r.rc r.s
-            ({ replies := r.replies ++ e }, s')
+          finishStep row.state i (runFunc env v row.func s l)
       else errOut .badseq s
 
 /-- a whole connection: outcome per input, final state -/
